@@ -983,6 +983,10 @@ def check_parsed(doc):
                                                                        'child_parent': getattr(c.parentNode, 'nodeName', None)})
                         walk(c)
                 elif hasattr(v, 'nodeType') and v.nodeType == Node.ELEMENT_NODE:
+                    if v.parentNode is not node and v.parentNode is not None:
+                        # an element held in an attribute AND living somewhere else in the tree is reachable twice
+                        raise Violation('C06|parsed|attribute-element-parent', {'holder': node.nodeName, 'attribute': k, 'element': v.nodeName,
+                                                                                'parent': getattr(v.parentNode, 'nodeName', None)})
                     walk(v)
     walk(doc)
 
